@@ -146,7 +146,7 @@ func histChain(i int) string {
 }
 
 func confStream(rep *lib.Report, seed int64, nHist, nSteps int, write bool, only int) {
-	var items, imps []string
+	var items, imps, sweeps []string
 	for i := 0; i < nHist; i++ {
 		if only >= 0 && i != only {
 			continue
@@ -154,6 +154,13 @@ func confStream(rep *lib.Report, seed int64, nHist, nSteps int, write bool, only
 		r := lib.NewRand(seed*1_000_003 + 1000 + int64(i))
 		h := newHist(i, seed*7919+int64(i), histChain(i), r, i%3 != 2)
 		for s := 0; s < nSteps; s++ {
+			// the recovery byte swept over 0..255 once per history; kinds rotate so that the eth family (i%4 != 1) and
+			// tron (i%4 == 1) both see all three confirmation kinds
+			if s == 4 {
+				if it := h.vsweep(rep, s, (i/4+i)%3); it != "" {
+					sweeps = append(sweeps, it)
+				}
+			}
 			if res := h.step(rep, s); res.item != "" {
 				items = append(items, res.item)
 			}
@@ -181,6 +188,7 @@ func confStream(rep *lib.Report, seed int64, nHist, nSteps int, write bool, only
 	}
 	if write && only < 0 {
 		lib.WriteCases("Cases_C12_conf.v", []string{"model.M_Abi", "model.M_CkDesc", "model.M_Confirm", "model.M_ConfirmCorr"}, "conf_case", items, "conf_mismatch")
+		lib.WriteCases("Cases_C12_vsweep.v", []string{"model.M_Abi", "model.M_CkDesc", "model.M_Confirm", "model.M_ConfirmCorr"}, "vs_case", sweeps, "vs_mismatch")
 		lib.WriteCases("Cases_C12_imp.v", []string{"model.M_Abi", "model.M_CkDesc", "model.M_Confirm", "model.M_ConfirmCorr"}, "imp_case", append(probeItems, imps...), "imp_mismatch")
 	}
 }
